@@ -93,7 +93,10 @@ def reference(spec, cot_seed):
         else:
             loss = (z * cot).sum()
             zval = z
-        grads = torch.autograd.grad(loss, list(leaves.values()), allow_unused=True)
+        if loss.requires_grad:
+            grads = torch.autograd.grad(loss, list(leaves.values()), allow_unused=True)
+        else:       # no terminal takes part in any derivation (e.g. every rule is a unit rule)
+            grads = [None] * len(leaves)
         return zval.detach(), {t: (g_ if g_ is not None else torch.zeros_like(leaves[t])).detach() for t, g_ in zip(leaves, grads)}
     out = {}
     for log in (False, True):
